@@ -6,6 +6,7 @@ import (
 	"fmt"
 	"os"
 	"path/filepath"
+	"runtime"
 	"runtime/debug"
 	"strings"
 
@@ -380,6 +381,10 @@ func c15Play(ctx *rt.Ctx, c c15Case) (viol string, outcome string) {
 				if err := closed.Close(); err != nil {
 					v = fmt.Sprintf("step %d repeated Close returned %v", n+1, err)
 				}
+			case op == "gc":
+				// two collections between use and Close (what a pool of per-index helpers does not survive)
+				runtime.GC()
+				runtime.GC()
 			case op == "probe":
 				if idx == nil {
 					return
@@ -412,6 +417,7 @@ func c15Histories(thorough bool) [][]string {
 			hs = append(hs, []string{o1, "probe", "close", "close2", o2, "probe", "close"})
 			if o1 == o2 {
 				hs = append(hs, []string{o1, "close", "close2", "close3", o2, "probe", "close", "close2", "close3"})
+				hs = append(hs, []string{o1, "probe", "gc", "close", o2, "probe", "probe", "gc", "probe", "close"})
 			}
 			if thorough {
 				hs = append(hs, []string{o1, o2, "close", o1, "close", "close2", o2})
